@@ -204,7 +204,7 @@ def peer_gone_rule(run):
             return (r_.endswith('::error')) == (c_[0] == '==')
         return None
     err_wk = [c for c in wk if any((lambda c_: c_ and q.render(ipk, q.strip_casts(c_[1])) == 'p.type' and 'error' in q.render(ipk, c_[2]))(q.cmp_atom(g_)) and pol_ for g_, pol_ in q.guards_at(ipk, c))]
-    ok = bool(err_wk) and bool(clr) and all(q.any_precedes(ipk, clr, c) for c in err_wk)
+    ok = bool(err_wk) and bool(clr) and any(q.any_precedes(ipk, clr, c) for c in err_wk)      # (the branch that fails a pending CONNECT may wake the writer too: that one has no route to clear)
     # the switch on p.type is followed through its case label: start the path query at the error/payload case
     run.check(ok, 'R10', 'peer-gone-fails-writer', T + '::incoming_packet:error', ipk.loc(err_wk[0]) if err_wk else ipk.loc(),
               'an error packet from the peer (it closed) neither empties the route to it nor re-dispatches a parked writer: a write waiting for the window is never completed (no ACK will come) - e.g. a server sending a large response to a client that hangs up stays in async_write forever and never accepts the next client',
@@ -258,9 +258,9 @@ def failed_connect_resumes_parked_rule(run):
         run.violation('R4', 'failed-connect-resumes-parked', T + '::incoming_packet', ip.loc(), 'no branch completes m_connect_handler from an error packet (reset-completes-pending-connect)')
         return
     site = fail[0].site
-    for slot, redo in (('m_send_handler', ('async_write_some_impl', 'abort_send_handlers')), ('m_recv_handler', ('async_read_some_impl', 'abort_recv_handlers')), ('m_wait_recv_handler', ('async_wait_read_impl', 'abort_recv_handlers'))):
+    for slot, redo in (('m_send_handler', ('async_write_some_impl', 'abort_send_handlers', 'maybe_wakeup_writer')), ('m_recv_handler', ('async_read_some_impl', 'abort_recv_handlers', 'maybe_wakeup_reader')), ('m_wait_recv_handler', ('async_wait_read_impl', 'abort_recv_handlers', 'maybe_wakeup_reader'))):
         calls = [c for c in ip.calls() if (q.callee_name(c) or '').split('::')[-1] in redo and in_error_branch(c) and
-                 (('abort' in (q.callee_name(c) or '')) or any(x['k'] == 'member' and x.get('name') == slot for a_ in c.get('args', []) for x in walk(a_))) and
+                 (('abort' in (q.callee_name(c) or '')) or ('maybe_wakeup' in (q.callee_name(c) or '')) or any(x['k'] == 'member' and x.get('name') == slot for a_ in c.get('args', []) for x in walk(a_))) and
                  (q.precedes(ip, site, c) or ip.cfg._reaches(ip.cfg.node_block(site), ip.cfg.node_block(c)) or ip.cfg.node_block(site) == ip.cfg.node_block(c))]
         run.check(bool(calls), 'R4', 'failed-connect-resumes-parked', '%s: %s' % (T + '::incoming_packet', slot), ip.loc(site),
                   'the branch that completes the pending connect with the error of a packet (refused by the forwarder of a closed acceptor, reset by an acceptor that closed with the connect queued) leaves %s parked: an operation started while the connect was in progress is never completed - on the timer refusal path the same operation fails at once with not_connected' % slot,
@@ -276,22 +276,30 @@ def listen_means_listening_rule(run):
     ls = [f for f in fx.fn(A + '::listen') if 'error_code' in f.sig][0]
     run.touch(ls)
     qn = ls.params[0].get('name')
-    norm = []
-    for s_, d_ in q.local_defs(ls, ls.params[0]['did']) if 'did' in ls.params[0] else []:
-        v = q.const_eval(ls, d_, lambda t: None)
-        if isinstance(v, int) and not isinstance(v, bool) and v >= 0:
-            norm.append(s_)
-    ok = False
-    why = 'no assignment of a non-negative default to `%s`' % qn
-    for s_ in norm:
-        g = [(a_, p_) for a_, p_ in q.guards_at(ls, s_) if any(x['k'] == 'ref' and x.get('did') == ls.params[0].get('did') and x.get('dk') == 'param' for x in walk(a_))]      # the tests of the backlog itself
-        vals = {v: all((q.const_eval(ls, a_, lambda t, v=v: v if t == qn else None) is True) == p_ for a_, p_ in g) for v in (-1000, -2, -1, 0, 1, 20)}
-        if g and vals[-1000] and vals[-2] and vals[-1] and not vals[0] and not vals[1] and not vals[20]:
-            stores = [a.site for a in q.field_accesses(ls, {A + '::m_queue_size_limit'}) if a.kind == 'assign']
-            if stores and all(any(q.precedes(ls, a_, st_) for a_, p_ in g) for st_ in stores) and all(ls.cfg._reaches(ls.cfg.node_block(s_), ls.cfg.node_block(st_)) or ls.cfg.node_block(s_) == ls.cfg.node_block(st_) for st_ in stores):
-                ok = True
-        else:
-            why = 'the default replaces the backlog for %s only' % sorted(v for v, t in vals.items() if t)
+    pdid = ls.params[0].get('did')
+    defs = [(s_, d_) for s_, d_ in q.local_defs(ls, pdid)] if pdid is not None else []
+    defs.sort(key=lambda sd: (sd[0].get('l', 0), sd[0].get('i', 0)))
+    stores = [a.site for a in q.field_accesses(ls, {A + '::m_queue_size_limit'}) if a.kind == 'assign']
+    norm = [s_ for s_, d_ in defs]
+    # the value the store sees, for each backlog a caller may pass: the (straight-line) re-definitions of the parameter are
+    # applied in order, each under its own tests of the parameter
+    final = {}
+    for v0 in (-1000, -2, -1, 0, 1, 20):
+        v = v0
+        for s_, d_ in defs:
+            if stores and not all(q.precedes(ls, a_, st_) for st_ in stores for a_ in [s_] if not q.guards_at(ls, s_)) and not any(ls.cfg._reaches(ls.cfg.node_block(s_), ls.cfg.node_block(st_)) or ls.cfg.node_block(s_) == ls.cfg.node_block(st_) for st_ in stores):
+                continue
+            g = [(a_, p_) for a_, p_ in q.guards_at(ls, s_) if any(x['k'] == 'ref' and x.get('did') == pdid and x.get('dk') == 'param' for x in walk(a_))]
+            taken = all((q.const_eval(ls, a_, lambda t, v=v: v if t == qn else None) is True) == p_ for a_, p_ in g)
+            if taken:
+                nv = q.const_eval(ls, d_, lambda t, v=v: v if t == qn else None)
+                v = nv if isinstance(nv, int) and not isinstance(nv, bool) else None
+                if v is None:
+                    break
+        final[v0] = v
+    stored_param = bool(stores) and all(q.render(ls, q.strip_casts(st_['rhs'] if st_['k'] == 'bin' else st_['args'][1])) == qn for st_ in stores)
+    ok = stored_param and all(isinstance(final[v0], int) and final[v0] >= 0 for v0 in final) and all(final[v0] == v0 for v0 in (0, 1, 20))
+    why = 'the value stored for the backlogs (-1000, -2, -1, 0, 1, 20) is %s' % [final[k] for k in (-1000, -2, -1, 0, 1, 20)]
     run.check(ok, 'R5', 'listen-means-listening', A + '::listen(int, error_code&)', ls.loc(norm[0]) if norm else ls.loc(),
               'listen(n, ec) stores a negative backlog as it is (%s): the call reports success, but internal_is_listening() is false for it - every connect is refused and the posted accept never completes' % why,
               'every negative backlog becomes the default before the store')
